@@ -4,7 +4,9 @@
 (* G, scale sn/sd) with one observation record per construction route of   *)
 (* the real UnitCell (harness/c12.py).  Every observed float x arrives as  *)
 (* the BigInt round(x * 2^K); products of two observations carry 2^2K.     *)
-(* Slack: 1e-9 x cond, cond = (abc/V)^2 = G11 G22 G33 / det G (exact).     *)
+(* Slack: 2^-30 (0.93e-9) x cI, cI = floor((abc/V)^2) + 1 computed exactly *)
+(* from G ((abc/V)^2 = G11 G22 G33 / det G); measured float noise on the   *)
+(* unchanged tree is <= 3e-15 x (abc/V)^2 in every clause.                 *)
 (* The verdict of every trace is computed here by TLC.                     *)
 (***************************************************************************)
 EXTENDS Lattice, TLC, Json, IOUtils
